@@ -114,7 +114,9 @@ def check_valid(ctx, src, width, scopes, feats, tag, cli_dir=None):
     try:
         L = lua.Lua.from_lines([src], version=ambient.VERSION[0])
     except Exception as e:
-        ctx.inconclusive_because('generator produced a program picotool rejects (C08 owns that): %r' % (e,))
+        # "for every valid program luafmt succeeds": a program of the dialect that picotool does not even load cannot be formatted
+        # (C07 / C08 judge the same rejection as the lexer's or the parser's own failure)
+        ctx.violation('luafmt cannot succeed: picotool rejects a valid program: %r' % (e,), case)
         return
     count_before = L.get_token_count()
     try:
@@ -306,7 +308,13 @@ def run_shard(spec, ctx):
         if spec['kind'] == 'degenerate':
             for src in (b'', b'\n', b' ', b'  \n\n', b'\t', b'-- only a comment', b'-- only a comment\n', b'--[[block]]', b'// c\n\n',
                         b'x=1', b'x=1 ', b'x=1 -- c', b'if (a) b=1', b'?"x"', b'function f() end', b'\n\nx=1', b'x=1\n\n\n', b'::l::',
-                        b'return', b'return 1', b';', b';;\n', b'x=1;', b'do end'):
+                        b'return', b'return 1', b';', b';;\n', b'x=1;', b'do end',
+                        # small programs of forms the random generator reaches only now and then: a parenthesised vararg, a string
+                        # call on a method, semicolon-only blocks, `if (c) do`, strings that spell words, unary chains
+                        b'local a=(...)\nf((...))\nt={(...)}\n', b'o:m"s"\no:m[[s]]\no:m{1}\nf"s".x=1\n', b'while w do ; end\ndo ; end\nrepeat ; until x\n',
+                        b'if (c) do\n x=1\nend\n', b'if (c) do -- note\nelse y=1 end\n', b'x=type(v)=="nil" or s==\'true\' or [[false]]\n',
+                        b'x=not not y\nz=-#t\nw=- -a\nv=~-b\n', b'x=.5e3+0x.8+0b.1+.05\n', b'in1,end1,or2,not0=1,2,3,4\n',
+                        b't={a=1,a=2,["a"]=3}\ng[i(x)]+=1\np().hp-=1\n', b'if a then\nelse if b then\n c=1\nend end\n', b'x=\n 1\ny =\n{\n}\n'):
                 for w in (0, 2, 4):
                     ctx.feature('degenerate')
                     check_valid(ctx, src, w, None, set(), 'degenerate')
